@@ -303,6 +303,7 @@ type facts struct {
 	internalStops      bool   // TryTransition(NewStopActivityTransition…)
 	internalCritTested bool   // does that branch look at Critical at all?
 	dev                devFacts // guard stacks of the role update and of the STOP request in that case (devfacts.go)
+	env                envFacts // which environment that case handles the event in: the task's or the label's (envfacts.go)
 	notifyNonBlocking  bool
 	forwardIffCritical bool
 	timerMs            int
@@ -448,6 +449,7 @@ func extract(repo string) (*facts, error) {
 		}
 		ft.internalCritTested = mentions(cc, "Critical") || len(callsNamed(cc, "IsCritical")) > 0
 		ft.dev = deviceFacts(cc)
+		ft.env = envLookupFacts(hd, cc)
 		ft.internalGuard = ft.dev.guard
 		ft.internalUpdates = ft.dev.role.n == 1
 		ft.internalStops = ft.dev.stop.n == 1
@@ -690,6 +692,11 @@ func genFacts(repo string) (string, error) {
 	w("go/ast, …: contains a POSITIVE test of the task's criticality (`if !t.GetTraits().Critical { return }` before it, or an enclosing `if ….Critical`)", "internalStopNeedsCritical", "Bool", bs(ft.dev.stopNeedsCrit))
 	w("go/ast, …: contains anything else (as above; also a criticality test of the wrong polarity)", "internalStopOther", "Bool", bs(ft.dev.stopOther))
 	w("go/ast, same case: role update and STOP request run in the same goroutine, the role update first", "internalRoleBeforeStop", "Bool", bs(ft.dev.roleBeforeStop))
+	w("go/ast, same case: number of calls <x>.environment(ARG) (the lookup of the environment the event is handled in)", "internalEnvLookups", "Nat", fmt.Sprint(ft.env.lookups))
+	w("go/ast, same case: exactly one such lookup and ARG is `<t>.GetEnvironmentId()` with <t> defined once by `<t> := ….GetTask(…)` — the environment of the task's parent role, i.e. the one the task belongs to NOW — and nothing of ARG is derived from the event's labels", "internalEnvByTask", "Bool", bs(ft.env.byTask))
+	w("go/ast, same case: ARG of a lookup is derived from the event's labels (GetEnvironmentIdFromLabelerType / GetLabels, directly or through an identifier assigned from them anywhere in handleDeviceEvent): the environment the executor launched the task FOR", "internalEnvByLabel", "Bool", bs(ft.env.byLabel))
+	w("go/ast, same case: the identifier that lookup defines (once) is the receiver of every CurrentState() and TryTransition(…) call of the case", "internalEnvIsTheOneUsed", "Bool", bs(ft.env.envIsUsed))
+	w("go/ast, same case: every UpdateState(sm.ERROR) is called on <t>.GetParent() (directly or through an identifier defined once by it) of the same <t> the lookup went through", "internalRoleOfSameTask", "Bool", bs(ft.env.roleOfSameTask))
 	w("go/ast, ParentAdapter.updateState: the send sits in a select with a default clause", "notifyNonBlocking", "Bool", bs(ft.notifyNonBlocking))
 	w("go/ast, taskRole.updateState: exactly one parent.updateState call, inside `if t.Critical == true` without else", "forwardIffCritical", "Bool", bs(ft.forwardIffCritical))
 	w("go/ast, subscribeToWfState: time.AfterFunc(<n>*time.Millisecond, …)", "timerMs", "Nat", fmt.Sprint(ft.timerMs))
